@@ -30,7 +30,43 @@ import (
 const (
 	kfCase  = "C41-mixed-case-object-grants-frozen-after-load" // after LoadData, GRANT/REVOKE on databases/tables/routines whose names contain upper-case letters no longer reach the loaded entries
 	kfAdmin = "C41-admin-option-lost-on-load"                  // WITH ADMIN OPTION of a role edge is written but not read back
+	// REVOKE ... ON PROCEDURE db.Proc (upper-case letter in the routine name) leaves an empty routine
+	// entry in the account's in-memory privilege set (PrivilegeSet.RemoveRoutine deletes with the
+	// name as written, the map is keyed by the lower-cased name). The entry is dropped by a
+	// persist + load while the database entry around it is empty, and shows up on the original
+	// engine as "GRANT USAGE ON PROCEDURE" as soon as the database entry gets a privilege.
+	kfStale = "C41-mixed-case-routine-revoke-leaves-usage-entry"
 )
+
+// staleRegion: the operations that create the entry of kfStale.
+func staleRegion(o pm.Op) bool {
+	return o.Kind == pm.KRevoke && o.Level == pm.LRoutine && strings.ToLower(o.Obj) != o.Obj
+}
+
+// onlyUsageOnProcedure: signature of kfStale — the two states differ only in SHOW GRANTS lines
+// of the form GRANT USAGE ON PROCEDURE (an entry without any privilege).
+func onlyUsageOnProcedure(a, b map[string][]string) bool {
+	strip := func(lines []string) string {
+		var keep []string
+		for _, l := range lines {
+			if !strings.HasPrefix(l, "s:GRANT USAGE ON PROCEDURE ") {
+				keep = append(keep, l)
+			}
+		}
+		return strings.Join(keep, "\n")
+	}
+	differs := false
+	for k := range a {
+		if strings.Join(a[k], "\n") == strings.Join(b[k], "\n") {
+			continue
+		}
+		if !strings.HasPrefix(k, "SHOW GRANTS") || strip(a[k]) != strip(b[k]) {
+			return false
+		}
+		differs = true
+	}
+	return differs
+}
 
 var (
 	dbsLower = []string{"d1", "d2"}
@@ -312,7 +348,14 @@ func TestC41(t *testing.T) {
 			dbs, tables, procs = dbsMixed, tblMixed, prcMixed
 		}
 		cfg := &pm.Config{Users: userPool, Roles: rolePool, DBs: dbs, Tables: tables, Procs: procs, Privs: privPool,
-			Options: true, Passwords: passwords}
+			Options: true, Passwords: passwords,
+			Exclude: func(_ *pm.Model, o pm.Op) string {
+				if kf.Listed(kfStale) && staleRegion(o) {
+					return kfStale
+				}
+				return ""
+			},
+			Excluded: func(id string) { st.Excluded(id) }}
 		adminOpt := !kf.Listed(kfAdmin)
 		A := newEngine(rt.Fatalf, true, dbs, tables, procs)
 		defer A.f.Close()
@@ -418,11 +461,13 @@ func TestC41(t *testing.T) {
 			for _, e := range m.Edges {
 				adminEdges = adminEdges || e.WithAdmin
 			}
-			if d := diffState(A.state(fail, accts), B.state(fail, accts)); d != "" {
+			sa, sb := A.state(fail, accts), B.state(fail, accts)
+			if d := diffState(sa, sb); d != "" {
 				onlyEdges := adminEdges && !strings.Contains(strings.ReplaceAll(d, "SELECT * FROM mysql.role_edges", ""), "SELECT") && !strings.Contains(d, "SHOW GRANTS")
 				switch {
 				case onlyEdges && kf.Suppress(st, kfAdmin):
 				case mixed && kf.Suppress(st, kfCase):
+				case mixed && onlyUsageOnProcedure(sa, sb) && kf.Suppress(st, kfStale):
 				default:
 					fail("access-control state differs between the original and the loaded engine after the same further statements:\n%s", d)
 				}
